@@ -218,7 +218,7 @@ ADDED = {
  'C15': ' Other public entry points (quick-access object, print shortcuts, the read helper) run as company under threads; callers fill every container of a returned tree.',
  'C18': ' Arrangements include factories that return themselves.',
  'C19': ' Options: fold_ops x ignore_errors; empty and falsy values at every position.',
- 'C20': ' Also trees with a member of unknown kind printed through a Dispatcher whose error_handler carries on.',
+ 'C20': ' Also trees with a member of unknown kind printed through a Dispatcher whose error_handler carries on, and each of the 21 ES5 white-space characters as the indentation string.',
 }
 
 
